@@ -53,6 +53,19 @@ def oracle(fn):
     return fn
 
 
+def run_pinned(ctx):
+    """Replay tier: every saved (shrunk) failing case of a repaired defect under
+    pinned/<ID>/*.json is evaluated again, without the generator."""
+    import glob
+
+    for f in sorted(glob.glob(os.path.join(VERIF, "pinned", ctx.prop, "*.json"))):
+        with open(f) as fh:
+            d = json.load(fh)
+        if d.get("oracle") in ORACLES and "case" in d:
+            ctx.eval(ORACLES[d["oracle"]], d["case"])
+            ctx.count("pinned_regression_replayed")
+
+
 class Sub:
     def __init__(self, name, run, shards=(4, 16), budget=(150, 1500), weight=1):
         self.name = name
